@@ -1070,7 +1070,7 @@ func RunC02Harness(opts *Options, harness, outName string) (string, error) {
 		cmd = exec.Command("go", cmd.Args[1:]...)
 	}
 	cmd.Dir = opts.RepoDir
-	cmd.Env = append(os.Environ(), "VERIF_EMIT_OUT="+out)
+	cmd.Env = append(os.Environ(), "VERIF_EMIT_OUT="+out, "VERIF_TIER="+opts.Tier)
 	b, err := cmd.CombinedOutput()
 	if err != nil {
 		return "", fmt.Errorf("emission harness failed: %v\n%s", err, truncate(string(b), 3000))
